@@ -416,6 +416,10 @@ def check_direction(r, model, kind, label, direction, x, ctx, params, g, case, c
         gx = xr.grad.detach().clone() if xr.grad is not None else None
         gc = cr.grad.detach().clone() if cr is not None and cr.grad is not None else None
     model.zero_grad(set_to_none=True)
+    if direction == "sampling" and not (np.isfinite(L64val) and abs(L64val) < 1e9):
+        # the drawn samples left the range in which float64 differences mean anything (overflowing inverses): not decidable
+        r.count("sampling_path_saturated")
+        return "skip"
     nonfin = [n for n, gr in grads.items() if gr is not None and not torch.isfinite(gr).all()]
     if nonfin or (gx is not None and not torch.isfinite(gx).all()):
         r.viol("nonfinite_grad", "%s gradient is not finite" % label, params=nonfin[:4], **det)
@@ -470,6 +474,13 @@ def check_direction(r, model, kind, label, direction, x, ctx, params, g, case, c
         rtol = (3.5e-1 if what == "inputs" else 2e-2) if "umnn" in label or "umnn" in str(cfg) else RTOL
         err = abs(analytic - d2) / scale
         r.worst("grad_err/tol", err / rtol)
+        if err > rtol and abs(analytic - d2) > 1e-8 and abs(analytic - d2) <= 64 * 2.3e-16 * max(abs(l0()), 1.0) / (H / 2):
+            # resolution of the finite difference itself: the functional is a float64 number of size |L0|, so a central difference
+            # over 2h cannot resolve slopes below ~eps * |L0| / h (samples of a flow whose inverse overflows - LogTanh with a large
+            # cut point maps noise of 5 to 1e17 - give differences that are exactly zero).  Only a discrepancy BELOW that floor is
+            # declared undecidable, and only when the comparison would otherwise fail.
+            r.count("fd_below_resolution_undecided")
+            return "kink"
         if err > rtol and abs(analytic - d2) > 1e-8:
             r.viol("wrong_gradient", "%s gradient differs from finite differences" % label, what=what, name=name,
                    autograd=analytic, finite_difference=d2, rel_err=err, **det)
